@@ -263,6 +263,7 @@ class BuiltinMixin(object):
         key = self.seq_key(seq)
         if key not in reg:
             reg[key] = smt.fresh("distinct", z3.BoolSort())
+            self.__dict__.setdefault("_distinct_seqs", {})[key] = (seq, reg[key])
         return reg[key]
 
     def bi_sum(self, st, args, kw):
@@ -321,6 +322,7 @@ class BuiltinMixin(object):
         key = self.seq_key(seq)
         if key not in reg:
             reg[key] = Sym("num", smt.fresh("seqsum", z3.RealSort()), smt.fresh("seqsum_isint", z3.BoolSort()))
+            self.__dict__.setdefault("_numsum_seqs", {})[key] = (seq, reg[key])
         return reg[key]
 
     def bi_functools_reduce(self, st, args, kw):
@@ -425,16 +427,19 @@ class BuiltinMixin(object):
         reg[key] = new
         return new
 
-    def sorted_facts(self, st):
-        """assumed contract of sorted() on pairs with distinct first components: an ordered permutation"""
+    def sorted_facts(self, st, with_perm=False):
+        """assumed contract of sorted() on pairs with distinct first components: an ordered permutation.
+        The permutation link (P(k), Q(k)) = src[SIG(k)] is only supplied on request (concrete evaluation):
+        spec and code share P, Q, so no proof obligation needs it."""
         out = []
         for new in self.__dict__.get("_sorted", {}).values():
             P, Q, SIG, src, dist, n = new.meta["P"], new.meta["Q"], new.meta["SIG"], new.meta["src"], new.meta["dist"], new.n
             for k in st.all_kterms():
                 out.append(z3.Implies(z3.And(k >= 0, k < n - 1), z3.And(P(k) <= P(k + 1), z3.Implies(dist, P(k) < P(k + 1)))))
                 out.append(z3.Implies(z3.And(k >= 1, k < n), z3.And(P(k - 1) <= P(k), z3.Implies(dist, P(k - 1) < P(k)))))
-                e = src.get(SIG(k))
-                out.append(z3.Implies(z3.And(k >= 0, k < n), z3.And(SIG(k) >= 0, SIG(k) < n, P(k) == num_term(e.items[0]), Q(k) == num_term(e.items[1]))))
+                if with_perm:
+                    e = src.get(SIG(k))
+                    out.append(z3.Implies(z3.And(k >= 0, k < n), z3.And(SIG(k) >= 0, SIG(k) < n, P(k) == num_term(e.items[0]), Q(k) == num_term(e.items[1]))))
         return out
 
     # ------------------------------------------------------------------ type tests
